@@ -262,11 +262,15 @@ func allScenarios() []scenario {
 		}}
 	}})
 	out = append(out, scenario{"canonical-allocated", func() *instance {
-		mk := func(gs ...*graph.DenseGraph) threadBody {
+		// each thread owns one storage/partition pair and pushes several graphs through it (sizes going down,
+		// edgeless graphs included); results a thread still holds from another pair's point of view are
+		// re-observed at the end: they may only change through the thread's own later calls
+		mk := func(other *[]string, gs ...*graph.DenseGraph) threadBody {
 			storage := graph.NewStorage(6, 15)
 			op := graph.NewOrderedPartition(6, 15, nil)
 			opts := new(graph.CanonicalOptions)
 			var ops []func() string
+			var held [][]int
 			for _, g := range gs {
 				g := g
 				ops = append(ops, func() string {
@@ -276,14 +280,17 @@ func allScenarios() []scenario {
 					}
 					op.Reset(g.N(), g.M(), nil)
 					p, o, gen := graph.CanonicalIsomorphAllocated(g.N(), g.M(), nb, op, storage, opts)
+					held = append(held[:0], gen...)
 					return fmt.Sprint(p, o, gen)
 				})
+				// observe the result of the last call again after the other thread had a chance to run
+				ops = append(ops, func() string { return fmt.Sprint(held) })
 			}
 			return opsBody(ops...)
 		}
 		return &instance{threads: []threadBody{
-			mk(graph.Cycle(6), graph.Star(4), graph.CompleteGraph(3)),
-			mk(graph.Path(5), graph.CompletePartiteGraph(2, 3), graph.Cycle(4)),
+			mk(nil, graph.NewDense(4, nil), graph.Cycle(4), graph.Star(4), graph.CompleteGraph(3), graph.NewDense(3, nil)),
+			mk(nil, graph.NewDense(4, nil), graph.Path(4), graph.NewDense(3, nil), graph.CompletePartiteGraph(2, 2)),
 		}}
 	}})
 	out = append(out, scenario{"iterators", func() *instance {
